@@ -83,7 +83,6 @@ def cubic_bspline(
     stride_ = cat_scalars(
         stride,
         *args,
-        derivative=derivative,
         dtype=torch.int32,
         device=torch.device("cpu"),
     ).tolist()
